@@ -8,6 +8,7 @@ import (
 	"fmt"
 	"runtime"
 	"sync"
+	"sync/atomic"
 )
 
 // Interface is a type that performs an operation on itself, returning any error.
@@ -24,9 +25,9 @@ type Processor struct {
 	threads int
 	wg      *sync.WaitGroup
 
-	// closeOut ensures that out is closed only once
-	// when several exiting workers all see every token returned.
-	closeOut sync.Once
+	// exited counts the workers that have returned their token;
+	// the one that brings it to threads closes out.
+	exited int32
 }
 
 // Return a new Processor to operate the function f over the number of threads specified taking
@@ -58,8 +59,10 @@ func NewProcessor(queue chan Operator, buffer int, threads int) (p *Processor) {
 					p.out <- Result{nil, fmt.Errorf("concurrent: processor panic: %v", err)}
 				}
 				p.work <- struct{}{}
-				if len(p.work) == p.threads {
-					p.closeOut.Do(func() { close(p.out) })
+				// The atomic count, unlike a look at len(p.work), picks exactly
+				// one closer and orders the close after every worker's sends.
+				if atomic.AddInt32(&p.exited, 1) == int32(p.threads) {
+					close(p.out)
 				}
 				p.wg.Done()
 			}()
